@@ -2,10 +2,15 @@
 
 package checks
 
-import parser "github.com/openfga/language/pkg/go/gen"
+import (
+	parser "github.com/openfga/language/pkg/go/gen"
 
-// resetParserCaches returns the process-global ANTLR caches to their cold state.
-func resetParserCaches() bool { parser.VerifResetStaticData(); return true }
+	"verif/rt"
+)
+
+// resetParserCaches returns the process state the harness owns to its initial value: the ANTLR static data and (sched variant)
+// every package-level variable of the repository's packages.
+func resetParserCaches() bool { parser.VerifResetStaticData(); rt.ResetGlobals(); return true }
 
 // parserCacheSnapshot serialises the learned DFAs.
 func parserCacheSnapshot() string { return parser.VerifDFASnapshot() }
